@@ -1,7 +1,7 @@
 SPECIFICATION GSpec
 CONSTANTS
   Kinds = {"small"}
-  Times = {1, 2, 5, 14, 17, 21, 50, 61}
+  Times = {1, 2, 4, 5, 8, 12, 17, 21, 61}
   Start = 1
   ChkSet = {FALSE}
   GenDepth = 4
